@@ -1,5 +1,6 @@
 (* c18 model driver: one case per line
-     <variant> <name> <validity> <value>
+     <variant> <name> <validity> <value> [<context_flags>]   (the flags are not used: no register method reads them;
+     translate/context_tables.py aborts if one starts to)
    name: `-` = empty string; validity: `A` or `S:n1,n2,...` (`S:` = empty set)
    output: the model's part of the harness answer (see harness/src/bin/c18.rs) *)
 let name_of_string (s : string) : z list =
@@ -24,7 +25,7 @@ let () =
     while true do
       let line = input_line stdin in
       if String.length line > 0 && line.[0] <> '#' then begin
-        match split_ws line with
+        match (match split_ws line with [a; b; c; d; _] -> [a; b; c; d] | l -> l) with
         | [variant; nm; vspec; value] ->
           let v =
             if vspec = "A" then VAll
